@@ -70,12 +70,26 @@ def loop_over(e, reg):
             t = t[1][1]
         return isinstance(t, tuple) and t[:2] == ("reg", reg)
     t = e.a.get("test")
+    if _snapshot_of(t, reg):
+        # keys = list(R[addr]); while keys: k = keys.pop() ...: every iteration takes one key out of the snapshot, until none is left
+        return all(any(x.kind == "SNAPPOP" and x.a["snap"] == t for x in bp.walk()) for bp in e.a["body"] if bp.exit_kind() != "raise")
     if t == ("const", True):
         # while True: x = R.popleft() ... except IndexError: break  - runs until the registry is empty
         return any(x.kind == "LOOKUP" and x.a.get("reg") == reg and str(x.a.get("how", "")).endswith("-empty") for bp in e.a["body"] for x in bp.walk())
     if t is not None:
         return any(isinstance(x, tuple) and x[:2] == ("reg", reg) for x in subterms(t))
     return False
+
+
+def _snapshot_of(t, reg):
+    """t is list(R[addr]) / sorted(R[addr]) / list(R[addr].keys()|values()|items()): a snapshot of the whole registry row."""
+    if not (isinstance(t, tuple) and t[:1] == ("call",) and isinstance(t[1], tuple) and t[1][:1] == ("builtin",) and t[1][1] in ("list", "sorted")
+            and len(t) > 2 and t[2]):
+        return False
+    x = t[2][0]
+    if isinstance(x, tuple) and x[:1] == ("call",) and isinstance(x[1], tuple) and x[1][:1] == ("attr",) and x[1][2] in ("items", "values", "keys", "copy"):
+        x = x[1][1]
+    return isinstance(x, tuple) and x[:2] == ("reg", reg)
 
 
 def loops_over(events, reg):
@@ -116,7 +130,8 @@ def drains(events, reg, skip_pending=False):
         ok = True
         fires = []
         until_empty = lp.a.get("test") == ("const", True)
-        if lp.a.get("lkind") == "while" and not until_empty and not _emptiness_test(lp.a.get("test"), reg):
+        if lp.a.get("lkind") == "while" and not until_empty and not _emptiness_test(lp.a.get("test"), reg) \
+                and not _snapshot_of(lp.a.get("test"), reg):
             continue       # a while loop drains the registry only if it runs until the registry is empty
         pre_ok = skip_pending is True or (skip_pending == "after-cancel" and cancels(events[:events.index(lp)], reg)[0])
         for bp in lp.a["body"]:
